@@ -1,7 +1,8 @@
 (** The hooked socket I/O loops of core/src/syscall/unix (mod.rs macros impl_nio_read,
     impl_nio_read_buf, impl_nio_write_buf, impl_nio_read_iovec, impl_nio_write_iovec, recvmsg.rs,
     sendmsg.rs, connect.rs) transcribed statement by statement, AS THEY ARE after the fix commits
-    of group A (findings 15-19 repaired; 20 is not: a would-block always waits), against a scripted kernel. Executable; no proofs here.
+    of group A (findings 15-19 repaired; 20 is not: a would-block always waits) and the repair of
+    connect_eintr_spins (connect.rs), against a scripted kernel. Executable; no proofs here.
 
     Sizes, offsets and positions are [nat]; return values, errno and time are [Z].
     A script entry is [(dt, response)]: the kernel call first advances the (virtual) clock by [dt].
@@ -317,11 +318,18 @@ Definition run_accept (limit : Z) (sc : script) (s : st) : outcome * st :=
 
 (** ** connect.rs. One kernel call, then the wait loop. The descriptor of the harness is a
     connected socket without pending error: after a successful wait getpeername and
-    getsockopt(SO_ERROR) both answer 0. An interrupted connect makes the real loop spin for ever;
-    such scripts are excluded by [wf] (OStuck here). *)
-Definition in_progress (e : Z) : bool := (e =? EINPROGRESS) || (e =? EALREADY) || (e =? EAGAIN).
+    getsockopt(SO_ERROR) both answer 0.
 
-Definition run_connect (limit : Z) (sc : script) (s : st) : outcome * st :=
+    [eintr_waits] selects the code: [true] is connect.rs as it is now (an interrupted connect goes on
+    asynchronously, EINTR is handled like EINPROGRESS: wait for writability, then
+    getpeername/SO_ERROR); [false] is the code before that repair, whose EINTR branch neither called
+    connect again nor changed anything (the loop spun for ever: OStuck). *)
+Definition connect_would_block (e : Z) : bool := (e =? EINPROGRESS) || (e =? EALREADY) || (e =? EAGAIN).
+Definition in_progress_gen (eintr_waits : bool) (e : Z) : bool :=
+  connect_would_block e || (eintr_waits && (e =? EINTR)).
+Definition in_progress : Z -> bool := in_progress_gen true.
+
+Definition run_connect_gen (eintr_waits : bool) (limit : Z) (sc : script) (s : st) : outcome * st :=
   let '(blocking, s1) := enter s in
   let start := s_clock s1 in
   let x := match sc with [] => exhausted | x :: _ => x end in
@@ -330,13 +338,14 @@ Definition run_connect (limit : Z) (sc : script) (s : st) : outcome * st :=
   let '(o, s3) :=
     if 0 <? limit then
       if r =? 0 then (ORet r, set_errno s2 0)
-      else if in_progress (s_errno s2) then
+      else if in_progress_gen eintr_waits (s_errno s2) then
         let '(ok, left', s3) := do_wait limit start s2 in
         if negb ok then (ORet r, s3)
         else
           (* r = getpeername = 0; r = getsockopt = 0, err = 0; second iteration *)
           if 0 <? left' then (ORet 0, set_errno s3 0) else (ORet 0, s3)
-      else if s_errno s2 =? EINTR then (OStuck, s2)
+      (* before the repair only: else if errno != EINTR { break } *)
+      else if negb eintr_waits && (s_errno s2 =? EINTR) then (OStuck, s2)
       else (ORet r, s2)
     else (ORet r, s2) in
   let s4 := match o with
@@ -344,6 +353,10 @@ Definition run_connect (limit : Z) (sc : script) (s : st) : outcome * st :=
             | _ => s3
             end in
   (o, restore blocking s4).
+
+Definition run_connect : Z -> script -> st -> outcome * st := run_connect_gen true.
+(** connect.rs before the repair of [connect_eintr_spins] *)
+Definition old_run_connect : Z -> script -> st -> outcome * st := run_connect_gen false.
 
 (** ** a whole call *)
 Definition init_st (c : cfg) : st := mkSt (c_t0 c) 0 (c_nb c) (c_wfail c) [] [] [].
